@@ -43,8 +43,11 @@ def load_known(prop: str) -> Tuple[List[Dict[str, Any]], List[Dict[str, Any]]]:
     return [e for e in ents if e.get("status") == "known"], [e for e in ents if e.get("status") == "fixed"]
 
 
+_SEED = [0]
+
+
 def native(h: Harness, module: str, tier: str, args: Dict[str, Any], *, profile: bool = False, strong: bool = True) -> Dict[str, Any]:
-    job = {"module": module, "key": f"{h.prop}.{h.name}", "tier": tier, "args": args, "profile": profile, "strong": strong}
+    job = {"module": module, "key": f"{h.prop}.{h.name}", "tier": tier, "args": args, "profile": profile, "strong": strong, "seed": _SEED[0]}
     return _sub("engine.native", job, 300)
 
 
@@ -64,7 +67,7 @@ def write_replay(prop: str, h: Harness, module: str, tier: str, args: Dict[str, 
     path = os.path.join(os.environ.get("VERIF_REPLAY_DIR") or os.path.join(ROOT, "replays"), f"{prop}-{h.name}-{hid}.json")
     os.makedirs(os.path.dirname(path), exist_ok=True)
     with open(path, "w") as f:
-        json.dump({"property": prop, "module": module, "key": f"{prop}.{h.name}", "tier": tier, "args": args,
+        json.dump({"property": prop, "module": module, "key": f"{prop}.{h.name}", "tier": tier, "args": args, "seed": _SEED[0],
                    "native": {k: nat.get(k) for k in ("pre", "result", "exception", "traceback")},
                    "how": f"./vf replay {os.path.relpath(path, ROOT)}"}, f, indent=1)
     return path
@@ -72,6 +75,7 @@ def write_replay(prop: str, h: Harness, module: str, tier: str, args: Dict[str, 
 
 def check(prop: str, tier: str, seed: int, only: Optional[str] = None) -> int:
     t_start = time.time()
+    _SEED[0] = seed
     module = f"harness.{prop.lower()}"
     importlib.import_module(module)
     hs = harnesses_for(prop)
@@ -96,11 +100,11 @@ def check(prop: str, tier: str, seed: int, only: Optional[str] = None) -> int:
             shards = shards[r:] + shards[:r]
         for sh in shards:
             jobs.append((h, {"module": module, "key": f"{prop}.{h.name}", "tier": tier, "shard": sh, "kind": "main",
-                             "exclude": excl, "timeout": h.budget(tier)}))
+                             "exclude": excl, "timeout": h.budget(tier), "seed": seed}))
             for k in excl:
                 if _region_possible(h, k, sh):
                     jobs.append((h, {"module": module, "key": f"{prop}.{h.name}", "tier": tier, "shard": sh,
-                                     "kind": "region", "region": k, "timeout": min(h.budget(tier), 120.0)}))
+                                     "kind": "region", "region": k, "timeout": min(h.budget(tier), 120.0), "seed": seed}))
 
     lock = threading.Lock()
     results: List[Tuple[Harness, Dict[str, Any], Dict[str, Any]]] = []
@@ -214,7 +218,7 @@ def check(prop: str, tier: str, seed: int, only: Optional[str] = None) -> int:
 
     def wit(item):
         hn, ws = item
-        job = {"module": module, "key": f"{prop}.{hn}", "tier": tier, "batch": ws, "profile": True, "strong": False}
+        job = {"module": module, "key": f"{prop}.{hn}", "tier": tier, "batch": ws, "profile": True, "strong": False, "seed": seed}
         return hn, ws, _sub("engine.native", job, 600)
 
     def spread(ws: List[Dict[str, Any]], n: int) -> List[Dict[str, Any]]:
@@ -326,6 +330,7 @@ def replay(path: str) -> int:
     from .api import REGISTRY
 
     h = REGISTRY[rec["key"]]
+    _SEED[0] = int(rec.get("seed", 0))
     nat = native(h, rec["module"], rec["tier"], rec["args"])
     print(json.dumps(nat, indent=1))
     if reproduces(nat):
